@@ -494,6 +494,44 @@ impl World {
                     }
                 }
             }
+            "advremove" => {
+                // advremove <i> <j> <tsoff>: member i builds a Remove(j) COMMIT with OpenMLS directly (bypassing
+                // mdk's admin check), discards its own pending commit, and publishes the commit like mdk would
+                use openmls::prelude::MlsGroup;
+                use openmls_basic_credential::SignatureKeyPair;
+                use tls_codec::Serialize as _;
+                let i = u(t[1]) as usize;
+                let target = self.clients[u(t[2]) as usize].keys.public_key();
+                let gid = match self.clients[i].gid.clone() { Some(g) => g, None => return "err:NoGroup".into() };
+                let ts = self.t0 + u(t[3]);
+                let mdk = self.clients[i].mdk.take().unwrap();
+                let r: Option<Event> = with_mdk!(&mdk, |m| (|| {
+                    let storage = m.provider.storage();
+                    let rec = m.get_group(&gid).ok()??;
+                    let mut mg = MlsGroup::load(storage, gid.inner()).ok()??;
+                    let own = mg.own_leaf()?.clone();
+                    let signer = SignatureKeyPair::read(storage, own.signature_key().as_slice(), mg.ciphersuite().signature_algorithm())?;
+                    let idx = mg.members().find(|mem| {
+                        openmls::prelude::BasicCredential::try_from(mem.credential.clone()).ok().map(|c| c.identity().to_vec()) == Some(target.to_bytes().to_vec())
+                    })?.index;
+                    let sec = mg.export_secret(m.provider.crypto(), "nostr", b"nostr", 32).ok()?;
+                    let (msg, _, _) = mg.remove_members(&m.provider, &signer, &[idx]).ok()?;
+                    let bytes = msg.tls_serialize_detached().ok()?;
+                    let _ = mg.clear_pending_commit(storage);
+                    let keys = Keys::new(nostr::SecretKey::from_slice(&sec).ok()?);
+                    let content = nostr::nips::nip44::encrypt(keys.secret_key(), &keys.public_key, &bytes, nostr::nips::nip44::Version::default()).ok()?;
+                    EventBuilder::new(Kind::MlsGroupMessage, content)
+                        .tag(Tag::custom(TagKind::h(), [hex::encode(rec.nostr_group_id)]))
+                        .custom_created_at(Timestamp::from(ts))
+                        .sign_with_keys(&Keys::generate())
+                        .ok()
+                })());
+                self.clients[i].mdk = Some(mdk);
+                match r {
+                    Some(ev) => self.push_event(ev),
+                    None => "err:Craft".into(),
+                }
+            }
             "restart" => {
                 let j = u(t[1]) as usize;
                 if self.clients[j].sql_path.is_none() {
@@ -514,6 +552,10 @@ impl World {
 
 pub fn main(_args: &[String]) -> i32 {
     std::panic::set_hook(Box::new(|_| {}));
+    if std::env::var("VH_TRACE").is_ok() {
+        // diagnostics only: mdk / openmls log records on stderr
+        let _ = tracing_subscriber::fmt().with_env_filter(std::env::var("VH_TRACE").unwrap()).with_writer(std::io::stderr).try_init();
+    }
     let stdin = io::stdin();
     let out = io::stdout();
     let mut out = out.lock();
@@ -540,7 +582,7 @@ pub fn main(_args: &[String]) -> i32 {
         };
         // fingerprint of the acting client (second token is the client index for client-directed ops)
         let fp = match t[0] {
-            "client" | "kp" | "create" | "welcome" | "accept" | "decline" | "send" | "selfupdate" | "add" | "remove" | "leave" | "data" | "merge" | "clear" | "deliver" | "restart" | "fp" => {
+            "client" | "kp" | "create" | "welcome" | "accept" | "decline" | "send" | "selfupdate" | "add" | "remove" | "leave" | "data" | "merge" | "clear" | "deliver" | "restart" | "fp" | "advremove" => {
                 let ci = u(t[1]) as usize;
                 if ci < world.clients.len() && world.clients[ci].mdk.is_some() {
                     catch_unwind(AssertUnwindSafe(|| world.fingerprint(ci))).unwrap_or_else(|_| "fp-panic".into())
